@@ -286,6 +286,7 @@ def main(argv=None):
         if a.replay:
             return do_replay_file(mod, a.replay, scratch, pid)
         conds = mod.conditions(tier, seed)
+        shutil.rmtree(os.path.join(ROOT, 'replays', pid), ignore_errors=True)
         if a.only:
             conds = [c for c in conds if re.search(a.only, c.name)]
         results = []
